@@ -23,7 +23,7 @@ fi
 rc=0
 for id in "$@"; do
   out="$(VERIF_REPO="$wt" VERIF_EVIDENCE_DIR="$wt/.evidence" "$V/run.sh" "$id" quick 2>&1)"; r=$?
-  echo "$out" | grep -E "^(VIOLATION|KNOWN-FINDING|BUILD-FAILURE|C[0-9]+ )" | head -5
+  echo "$out" | grep -E "^(VIOLATION|KNOWN-FINDING|BUILD-FAILURE|C[0-9]+ |  key=)" | head -12
   echo "  -> $id exit=$r"
   [ $r = 1 ] || rc=1
 done
